@@ -233,4 +233,63 @@ theorem F04r_witness :
     lineSameLineIgnores "    return x * 37  # type: ignore[magic-numbers]".toList "magic-numbers.numeric-literal".toList = false := by
   decide +kernel
 
+theorem isPrefixOf_append_cases : (k s rest : Str) → k.isPrefixOf (s ++ rest) = true → k.isPrefixOf s = true ∨ s.isPrefixOf k = true
+  | [], _, _, _ => Or.inl (by simp)
+  | _ :: _, [], _, _ => Or.inr (by simp)
+  | a :: k, b :: s, rest, h => by
+      simp only [List.cons_append, List.isPrefixOf_cons_cons, Bool.and_eq_true] at h ⊢
+      rcases isPrefixOf_append_cases k s rest h.2 with h' | h'
+      · exact Or.inl ⟨h.1, h'⟩
+      · refine Or.inr ⟨?_, h'⟩
+        have := h.1
+        simp only [beq_iff_eq] at this ⊢
+        exact this.symm
+
+/-- no position of `pre` can begin a directive prefix, whatever follows `pre` -/
+def noStartAt (s : Str) : Bool :=
+  !("thailint:".toList.isPrefixOf s) && !(s.isPrefixOf "thailint:".toList) &&
+  !("design-lint:".toList.isPrefixOf s) && !(s.isPrefixOf "design-lint:".toList)
+
+def noDirectiveStart : Str → Bool
+  | [] => true
+  | c :: s => noStartAt (c :: s) && noDirectiveStart s
+
+theorem afterLineDirective_none (s rest : Str) (h : noStartAt s = true) : afterLineDirective (s ++ rest) = none := by
+  simp only [noStartAt, Bool.and_eq_true, Bool.not_eq_true'] at h
+  obtain ⟨⟨⟨h1, h2⟩, h3⟩, h4⟩ := h
+  have a1 : "thailint:".toList.isPrefixOf (s ++ rest) = false := by
+    cases hh : "thailint:".toList.isPrefixOf (s ++ rest) with
+    | false => rfl
+    | true => rcases isPrefixOf_append_cases _ _ _ hh with x | x <;> simp_all
+  have a2 : "design-lint:".toList.isPrefixOf (s ++ rest) = false := by
+    cases hh : "design-lint:".toList.isPrefixOf (s ++ rest) with
+    | false => rfl
+    | true => rcases isPrefixOf_append_cases _ _ _ hh with x | x <;> simp_all
+  simp only [afterLineDirective, a1, a2, Bool.false_eq_true, if_false]
+
+/-- **Text in front of the directive that cannot begin a directive itself - code, another tool's comment with an `ignore[...]`
+    of its own - does not change which rule list is read**: the search skips it, for every such text and whatever follows. -/
+theorem directiveBracket_skip (line : Str) : (pre rest : Str) → noDirectiveStart pre = true →
+    directiveBracket line (pre ++ rest) = directiveBracket line rest
+  | [], _, _ => rfl
+  | c :: p, rest, h => by
+      simp only [noDirectiveStart, Bool.and_eq_true] at h
+      have hn := afterLineDirective_none (c :: p) rest h.1
+      rw [List.cons_append, directiveBracket]
+      rw [List.cons_append] at hn
+      rw [hn]
+      exact directiveBracket_skip line p rest h.2
+
+example : noDirectiveStart (lower "    return x * 37  # type: ignore[arg-type]  # ".toList) = true := by decide
+example : noDirectiveStart (lower "x = f(1)  # pyright: ignore[reportGeneralTypeIssues]  // ".toList) = true := by decide
+
+theorem lower_append (a b : Str) : lower (a ++ b) = lower a ++ lower b := by simp [lower]
+
+/-- … in the form `sameLineRuleMatch` uses it: the search over the whole lower-cased line finds what the search from the
+    directive on finds -/
+theorem text_before_directive_irrelevant (pre rest : Str) (h : noDirectiveStart (lower pre) = true) :
+    directiveBracket (pre ++ rest) (lower (pre ++ rest)) = directiveBracket (pre ++ rest) (lower rest) := by
+  rw [lower_append]
+  exact directiveBracket_skip _ _ _ h
+
 end ThaiLintModel.C04
